@@ -67,7 +67,16 @@ pub fn run_spec(spec: &Spec, c: &ValStream, st: &mut Stats) -> CaseResult {
 	let n = c.n as usize;
 	let init = gen::vt(c.init);
 	let xs: Vec<f64> = c.xs.iter().map(|&x| gen::vt(x)).collect();
-	let mut m = (spec.make)(c.n as PeriodType, init as ValueType).map_err(|e| Failure::new(format!("C03:{}:ctor", spec.name), format!("{}::new({}) failed: {e:?}", spec.name, n)))?;
+	let made = (spec.make)(c.n as PeriodType, init as ValueType);
+	if made.is_err() && c.n == top_length() {
+		// the largest representable length is offered to every constructor; the recurrence is checked where it is accepted
+		st.class("top-length-rejected");
+		return Ok(());
+	}
+	let mut m = made.map_err(|e| Failure::new(format!("C03:{}:ctor", spec.name), format!("{}::new({}) failed: {e:?}", spec.name, n)))?;
+	if c.n == top_length() {
+		st.class("top-length-accepted");
+	}
 	let mut r = (spec.reference)(n, init);
 	let mut mag = Mag::new(init);
 	let mut abs_sum = 0.0;
@@ -100,6 +109,12 @@ pub fn run_spec(spec: &Spec, c: &ValStream, st: &mut Stats) -> CaseResult {
 	Ok(())
 }
 
+/// `PeriodType::MAX` (255 by default): outside 1..=254, but a length several constructors accept; the documented
+/// recurrence has to hold there as well (seed S146)
+pub fn top_length() -> u32 {
+	(PeriodType::MAX as u64).min(65_535) as u32
+}
+
 fn fixed_len_stream(n: u32, max_len: usize) -> impl Strategy<Value = ValStream> {
 	gen::val_stream_n(n, max_len, Domain::Any, true)
 }
@@ -109,11 +124,11 @@ fn len_stream(max_n: u32, max_len: usize) -> SBoxedStrategy<ValStream> {
 		// window-less: the length parameter is 0; segment lengths aimed at a nominal 8
 		gen::val_stream_n(8, max_len, Domain::Any, true).prop_map(|mut s| { s.n = 0; s }).sboxed()
 	} else if max_n == 127 {
-		prop_oneof![4 => 1u32..=5, 4 => 6u32..=125, 2 => Just(126u32), 2 => Just(127u32)]
+		prop_oneof![4 => 1u32..=5, 4 => 6u32..=125, 2 => Just(126u32), 2 => Just(127u32), 1 => Just(top_length())]
 			.prop_flat_map(move |n| fixed_len_stream(n, max_len))
 			.sboxed()
 	} else {
-		gen::val_stream(1, max_len, Domain::Any, true)
+		prop_oneof![11 => gen::val_stream(1, max_len, Domain::Any, true), 1 => fixed_len_stream(top_length(), max_len)].sboxed()
 	}
 }
 
@@ -128,7 +143,7 @@ pub struct TsiCase {
 }
 
 fn tsi_strategy(max_len: usize, tier: Tier) -> impl Strategy<Value = TsiCase> {
-	let grid: Vec<u32> = vec![1, 2, 3, 5, 13, 25, 100, 127, 128, 253, 254];
+	let grid: Vec<u32> = vec![1, 2, 3, 5, 13, 25, 100, 127, 128, 253, 254, top_length()];
 	let g2 = grid.clone();
 	let pairs = if tier == Tier::Quick {
 		(proptest::sample::select(grid), proptest::sample::select(g2)).sboxed()
@@ -141,7 +156,12 @@ fn tsi_strategy(max_len: usize, tier: Tier) -> impl Strategy<Value = TsiCase> {
 pub fn run_tsi(c: &TsiCase, st: &mut Stats) -> CaseResult {
 	let init = gen::vt(c.s.init);
 	let xs: Vec<f64> = c.s.xs.iter().map(|&x| gen::vt(x)).collect();
-	let mut m = TSI::new(c.short as PeriodType, c.long as PeriodType, &(init as ValueType)).map_err(|e| Failure::new("C03:TSI:ctor", format!("{e:?}")))?;
+	let made = TSI::new(c.short as PeriodType, c.long as PeriodType, &(init as ValueType));
+	if made.is_err() && (c.short == top_length() || c.long == top_length()) {
+		st.class("top-length-rejected");
+		return Ok(());
+	}
+	let mut m = made.map_err(|e| Failure::new("C03:TSI:ctor", format!("{e:?}")))?;
 	let (al, as_) = (alpha_ema(c.long as usize), alpha_ema(c.short as usize));
 	let (mut n1, mut n2, mut d1, mut d2) = (Ema::new(al, 0.0), Ema::new(as_, 0.0), Ema::new(al, 0.0), Ema::new(as_, 0.0));
 	let mut last = init;
@@ -416,7 +436,7 @@ pub fn def(tier: Tier) -> PropertyDef {
 	PropertyDef {
 		id: "C03",
 		level: "exploration",
-		rule: "Bounded-exhaustive (exhaustive_small_*): every stream of length <= 6 (thorough 8) over {0,1,2,4} for n in {1,2,3,4,7} with every letter as construction value, for each recurrence of the EMA family - dyadic data on dyadic smoothing constants, where an input can equal the current state bit for bit. proptest: the same segment-built streams as C02 (<= 512 / 2048 steps), all lengths 1..=254 (1..=127 for WSMA), TSI on a boundary grid of (short,long) pairs incl. short>long (thorough: also random pairs), valid candle streams for TR/HeikinAshi/ADI(0). Oracle: the documented recurrence re-implemented independently (f64), compared at every step inside the allowance of DESIGN 4.2 (quotient rule for TSI; Vidya: change sums from scratch, carried error, hull predicate on ill-conditioned steps). Non-trivial = stream longer than 2n with >= 3 distinct values (Vidya/TSI: movement present); class plateau-after-movement is counted.",
+		rule: "Bounded-exhaustive (exhaustive_small_*): every stream of length <= 6 (thorough 8) over {0,1,2,4} for n in {1,2,3,4,7} with every letter as construction value, for each recurrence of the EMA family - dyadic data on dyadic smoothing constants, where an input can equal the current state bit for bit. proptest: the same segment-built streams as C02 (<= 512 / 2048 steps), all lengths 1..=254 (1..=127 for WSMA) and PeriodType::MAX wherever the constructor accepts it, TSI on a boundary grid of (short,long) pairs incl. short>long (thorough: also random pairs), valid candle streams for TR/HeikinAshi/ADI(0). Oracle: the documented recurrence re-implemented independently (f64), compared at every step inside the allowance of DESIGN 4.2 (quotient rule for TSI; Vidya: change sums from scratch, carried error, hull predicate on ill-conditioned steps). Non-trivial = stream longer than 2n with >= 3 distinct values (Vidya/TSI: movement present); class plateau-after-movement is counted.",
 		assumptions: vec!["magnitude domain of DESIGN §3; K = 256".into(), "Vidya: on steps where both change sums are within their allowance of zero after movement (the recurrence's branch is undetermined) or the CMO quotient is ill-conditioned, the output must lie in the hull of input and previous output and the reference is re-seeded from it; counted as reseeded/exempt steps".into()],
 		exhaustive: false,
 		checks,
